@@ -1,7 +1,8 @@
 ---------------------------- MODULE Trace_Unicode ----------------------------
 (* C10 on the non-terminal entry points: clipboard cell records, glyph tables,  *)
 (* IcyDraw cell records and strings.  cells{codes}: numeric values of stored     *)
-(* characters; str{bytes}: bytes of a string the engine built.                   *)
+(* characters; str{bytes}: bytes of a string the engine built.  r = "abort": the  *)
+(* worker process died inside that unit (dev profile: an invalid char aborts).   *)
 EXTENDS Utf8, TraceLib
 VARIABLES l
 vars == <<l>>
@@ -13,7 +14,7 @@ Next ==
      /\ CASE e.ev = "cells" ->
                /\ Bump(4) /\ BumpBy(6, Len(e.codes))
                /\ Check(\A i \in 1..Len(e.codes) : Scalar(e.codes[i]), "C10", "CellsScalar", l, [src |-> e.src, what |-> e.what])
-               /\ Check(e.r # "panic", "C10", "EntryPointPanics", l, [src |-> e.src, what |-> e.what])
+               /\ Check(e.r \notin {"panic", "abort"}, "C10", "EntryPointPanics", l, [src |-> e.src, what |-> e.what])
           [] e.ev = "str" ->
                /\ Bump(5)
                /\ Check(WellFormed(e.bytes), "C10", "StringWellFormed", l, [src |-> e.src, what |-> e.what, bytes |-> e.bytes])
